@@ -698,22 +698,48 @@ theorem not_not_nodes_spec (d : Doc) (cfg : ECfg) (fi : Plan) (c : Ref) (sc : Sp
   · simp [callFn, asBoolM, bind, Except.bind]
   · rw [spec_boolean]; rfl
 
-/-- plan level: `not(not(P))` and `boolean(P)` evaluate alike whenever `P` evaluates to a node-set
-(or a boolean, or fails) -/
-theorem not_not_plan (d : Doc) (cfg : ECfg) (fi₁ fi₂ fi₃ : Plan) (P : Plan) (c : Ref)
-    (h : (∃ l, evalP (F := F) d cfg P c = .ok (.nodes l)) ∨ (∃ b, evalP (F := F) d cfg P c = .ok (.bool b)) ∨
-      (∃ e, evalP (F := F) d cfg P c = .error e)) :
+/-- at `callFn` level, on **any** argument outcome (after the repair of `notFunc`): a value of any
+type — the Go `int` of `round()` makes both sides panic alike — or a failure -/
+theorem not_not_any (d : Doc) (cfg : ECfg) (fi : Plan) (c : Ref) (a : Except EErr (MVal F))
+    (asel asel' asel'' : Option (List Ref)) :
+    callFn (F := F) d cfg "not" fi c [callFn (F := F) d cfg "not" fi c [a] asel] asel' =
+      callFn (F := F) d cfg "boolean" fi c [a] asel'' := by
+  rcases a with e | v
+  · simp [callFn, bind, Except.bind]
+  · cases v <;> simp [callFn, asBoolM, bind, Except.bind]
+
+/-- plan level, unconditional: `not(not(P))` and `boolean(P)` evaluate alike for **every** plan `P`
+(whatever it evaluates to, failures included) -/
+theorem not_not_plan_spec (d : Doc) (cfg : ECfg) (fi₁ fi₂ fi₃ : Plan) (P : Plan) (c : Ref) :
     evalP (F := F) d cfg (.func "not" fi₁ (.pcons (.func "not" fi₂ (.pcons P .pnil)) .pnil)) c =
       evalP (F := F) d cfg (.func "boolean" fi₃ (.pcons P .pnil)) c := by
-  rcases h with ⟨l, h⟩ | ⟨b, h⟩ | ⟨e, h⟩ <;>
-    simp [evalP, argVals, callFn, asBoolM, h, bind, Except.bind, pure, Except.pure]
+  rcases hP : evalP (F := F) d cfg P c with e | v
+  · simp [evalP, argVals, callFn, hP, bind, Except.bind, pure, Except.pure]
+  · cases v <;> simp [evalP, argVals, callFn, asBoolM, hP, bind, Except.bind, pure, Except.pure]
 
-/-- where the identity stops (recorded, not repaired): on a *number or string* argument the model's
-`not` answers `false`, so `not(not(v))` is `true` whatever `v` is, while `boolean(v)` converts `v` -/
-theorem not_not_num_is_true (d : Doc) (cfg : ECfg) (fi : Plan) (c : Ref) (x : F) :
+/-- plan level: `not(not(P))` and `boolean(P)` evaluate alike whenever `P` evaluates to a node-set
+(or a boolean, or fails) — the hypothesis is not needed any more (`not_not_plan_spec`) -/
+theorem not_not_plan (d : Doc) (cfg : ECfg) (fi₁ fi₂ fi₃ : Plan) (P : Plan) (c : Ref)
+    (_h : (∃ l, evalP (F := F) d cfg P c = .ok (.nodes l)) ∨ (∃ b, evalP (F := F) d cfg P c = .ok (.bool b)) ∨
+      (∃ e, evalP (F := F) d cfg P c = .error e)) :
+    evalP (F := F) d cfg (.func "not" fi₁ (.pcons (.func "not" fi₂ (.pcons P .pnil)) .pnil)) c =
+      evalP (F := F) d cfg (.func "boolean" fi₃ (.pcons P .pnil)) c :=
+  not_not_plan_spec d cfg fi₁ fi₂ fi₃ P c
+
+/-- `not(not(number))` is `boolean(number)`: "non-zero and not NaN" (replaces `not_not_num_is_true`,
+which recorded that the defective `notFunc` made `not(not(v))` true for every number) -/
+theorem not_not_num_spec (d : Doc) (cfg : ECfg) (fi : Plan) (c : Ref) (x : F) :
     callFn (F := F) d cfg "not" fi c [callFn (F := F) d cfg "not" fi c [.ok (.num x)] none] none =
-      .ok (.bool true) := by
-  simp [callFn, bind, Except.bind]
+      .ok (.bool (Spec.toBool (F := F) (.num x))) ∧
+    callFn (F := F) d cfg "boolean" fi c [.ok (.num x)] none = .ok (.bool (Spec.toBool (F := F) (.num x))) := by
+  constructor <;> simp [callFn, asBoolM, Spec.toBool, bind, Except.bind]
+
+/-- `not(not(string))` is `boolean(string)`: "non-empty" -/
+theorem not_not_str_spec (d : Doc) (cfg : ECfg) (fi : Plan) (c : Ref) (s : String) :
+    callFn (F := F) d cfg "not" fi c [callFn (F := F) d cfg "not" fi c [.ok (.str s)] none] none =
+      .ok (.bool (Spec.toBool (F := F) (.str s))) ∧
+    callFn (F := F) d cfg "boolean" fi c [.ok (.str s)] none = .ok (.bool (Spec.toBool (F := F) (.str s))) := by
+  constructor <;> simp [callFn, asBoolM, Spec.toBool, bind, Except.bind]
 
 end XPathV.Compose
 
